@@ -742,6 +742,8 @@ def side_conditions_rule(ctx):
                     # `ch if ch.is_ascii_alphabetic()` / `Some(ch) if is_digit(ch)` with ASCII-only predicates at every call site
                     def ascii_pred(e):
                         e = sir.strip_ref(e)
+                        if e.get("k") == "mcall" and e["m"] == "is_digit" and len(e["args"]) == 1:
+                            return True   # char::is_digit(radix) = to_digit(radix).is_some(): ASCII digits and letters only, whatever the radix
                         return e.get("k") == "mcall" and e["m"] in ("is_ascii_hexdigit", "is_ascii_digit", "is_ascii_alphabetic", "is_ascii_alphanumeric") and not e["args"]
                     okg = ascii_pred(g_)
                     if not okg and g_.get("k") == "call" and g_["f"].get("k") == "path" and len(g_["f"]["segs"]) == 1:
